@@ -47,8 +47,7 @@ def tiny_op(rnd):
     if k in ("size", "close"):
         return {"op": k, "h": h}
     if k == "rename":
-        p = rnd.choice(PATHS)       # (a path onto itself: only in the dedicated KF-C08-1 scenarios)
-        return {"op": "rename", "p": p, "q": rnd.choice([q for q in PATHS if q != p])}
+        return {"op": "rename", "p": rnd.choice(PATHS), "q": rnd.choice(PATHS)}
     if k in ("stat", "readdir"):
         return {"op": k, "p": rnd.choice(PATHS + [[]])}
     return {"op": k, "p": rnd.choice(PATHS)}
@@ -183,21 +182,22 @@ def run_driver(ctx, pkg, overlay_map, run, scenarios, env=None, **kw):
 
 
 def kf_scenarios(sid0, seed):
-    """Dedicated scenarios that re-confirm the known findings of C08 on every run (the general
-    generators keep their triggers out so that no long trace is lost to them)."""
+    """Regression scenarios for the two defects this check found (KF-C08-1, KF-C08-2, both fixed in
+    /repo; known_findings.d/C08.json keeps them as "fixed", which suppresses nothing).  The general
+    generators produce their triggers too (self-rename, zero-length tokens inside a block)."""
     o = lambda h, p, acc="rw", cr=True: {"op": "open", "h": h, "p": p, "acc": acc, "cr": cr, "ex": False,
                                          "tr": False, "ap": False}
     out = []
     # KF-C08-1: Rename(x, x) of a regular file deletes it
-    for i, (bs, fl) in enumerate([(1, "none"), (2, "marshal")][:1 + seed % 2]):
+    for i, (bs, fl) in enumerate([(1, "none"), (2, "marshal"), (4, "flushall")]):
         out.append({"id": sid0 + i, "mode": "steps", "bs": bs, "flush": fl, "rseed": seed, "init": "empty",
-                    "gen": "kf1", "ops": [o(1, ["a"]), {"op": "write", "h": 1, "d": "xy"},
+                    "gen": "reg1", "ops": [o(1, ["a"]), {"op": "write", "h": 1, "d": "xy"},
                                           {"op": "rename", "p": ["a"], "q": ["a"]}, {"op": "stat", "p": ["a"]}]})
     # KF-C08-2: a zero-length file token inside a block leaves a zero-length segment; after the file
     # grows, reads at offset 0 report EOF
-    for i, (bs, fl) in enumerate([(4, "none"), (64, "flushlong")][seed % 2:seed % 2 + 1]):
+    for i, (bs, fl) in enumerate([(4, "none"), (64, "flushlong")]):
         out.append({"id": sid0 + 10 + i, "mode": "steps", "bs": bs, "flush": fl, "rseed": seed,
-                    "init": "manifest_kf2", "gen": "kf2",
+                    "init": "manifest_kf2", "gen": "reg2",
                     "ops": [o(1, ["b"], "w", False), {"op": "trunc", "h": 1, "n": 5}, {"op": "stat", "p": ["b"]}]})
     return out
 
@@ -267,12 +267,7 @@ def run(ctx):
     ctx.extra["events_judged"] = len(events)
     # JUDGE
     install_classifier(ctx)
-    # (the dedicated known-finding scenarios are judged separately: every rejection costs one more
-    # pass over all remaining traces)
-    kfids = {s["id"] for s in scns if s["gen"].startswith("kf")}
-    main = [e for t in traces if t[0].get("scn") not in kfids for e in t]
-    kfev = [e for t in traces if t[0].get("scn") in kfids for e in t]
-    judge_fast(ctx, SD, "CollFSTrace", "Judge_CollFS_C08.cfg", main + kfev, scenario_of=by_id, timeout=2400)
+    judge_fast(ctx, SD, "CollFSTrace", "Judge_CollFS_C08.cfg", events, scenario_of=by_id, timeout=2400)
     nontrivial = set()
     calls = 0
     for t in traces:
